@@ -272,3 +272,63 @@ Example C20_ex_two_succeed :
   dial_drained (attempt_outcomes ex_atts) (dial_full false ex_atts [DStagger; DResult 1%nat]) = [11] /\
   ex_id <> ex_id2.
 Proof. split; [vm_compute; reflexivity|]. split; [vm_compute; reflexivity|]. vm_compute. discriminate. Qed.
+
+(* ---- the greeting on the wire (added after seeded change C20-15) ---------- *)
+From Cedar Require Import Proofs.C20Wire.
+From Cedar Require Model.Msg.
+
+(* The decoder (readReverseConnect + ReadReverseConnectAd + AdString over the
+   typed-message layer of Model/Msg.v) yields a greeting matching id IFF the
+   first 8 bytes of the message are EXACTLY the big-endian 64-bit 69
+   (cmd_wire) - no truncation, no modular coincidence - and the ad read behind
+   them carries ClaimId = id.  The expression parser and the evaluator are
+   universally quantified. *)
+Theorem C20_greeting_decoded_exactly :
+  forall (parses : bytes -> bool) (claim_of : list bytes -> option bytes) cap tail w id,
+  id <> [] ->
+  (hello_matches id (decode_wire parses claim_of cap tail w) = true <->
+   exists r1 r2 es,
+     Msg.get_raw (Msg.reader_of (fst (frames_of w))) 8 = (r1, Msg.MOk cmd_wire) /\
+     read_ad parses cap r1 = (r2, Msg.MOk es) /\ claim_of es = Some id).
+Proof. exact greeting_decoded_exactly. Qed.
+Print Assumptions C20_greeting_decoded_exactly.
+
+(* the only 8 bytes GetInt reads as CCB_REVERSE_CONNECT *)
+Theorem C20_command_bytes_exact : forall bs,
+  length bs = 8%nat -> Msg.dec_int bs = ccb_reverse_connect -> bs = cmd_wire.
+Proof. exact dec_int_exact. Qed.
+Print Assumptions C20_command_bytes_exact.
+
+(* any other 64-bit command integer (69 + k * 2^32 in particular) never matches, whatever the ad says *)
+Theorem C20_wide_command_never_matches :
+  forall (parses : bytes -> bool) (claim_of : list bytes -> option bytes) cap tail w id r1 cmd,
+  Msg.get_int (Msg.reader_of (fst (frames_of w))) = (r1, Msg.MOk cmd) ->
+  cmd <> ccb_reverse_connect ->
+  hello_matches id (decode_wire parses claim_of cap tail w) = false.
+Proof. exact wide_command_never_matches. Qed.
+Print Assumptions C20_wide_command_never_matches.
+
+(* C20_only_matching with every arrival given by its wire bytes *)
+Theorem C20_only_matching_wire :
+  forall (parses : bytes -> bool) (claim_of : list bytes -> option bytes) cap id (ws : list wev) o,
+  id <> [] ->
+  run_attempt id (map (lower_ev parses claim_of cap) ws) = Finished o ->
+  (forall p, o_res o = Returned p ->
+     exists t w r1 r2 es,
+       In (WArrive p t w) ws /\
+       Msg.get_raw (Msg.reader_of (fst (frames_of w))) 8 = (r1, Msg.MOk cmd_wire) /\
+       read_ad parses cap r1 = (r2, Msg.MOk es) /\ claim_of es = Some id) /\
+  (forall q t w, In (WArrive q t w) ws -> In q (o_closed o) \/ o_res o = Returned q).
+Proof. exact only_matching_wire. Qed.
+Print Assumptions C20_only_matching_wire.
+
+(* non-vacuity: a real hello (command 69, ClaimId = "ab") decodes and matches; the same
+   bytes with the command 69 + 2^32 do not *)
+Example C20_ex_wire_hello :
+  let ad := [x00;x00;x00;x00;x00;x00;x00;x01] ++
+            [x43;x6c;x61;x69;x6d;x49;x64;x20;x3d;x20;x22;x61;x62;x22;x00] ++ [x00;x00] in
+  let body k := [x00;x00;x00;k;x00;x00;x00;x45] ++ ad in
+  let frame k := [x01;x00;x00;x00;x21] ++ body k in
+  hello_matches [x61;x62] (decode_greeting simple_parses simple_claim_of 65536 (frame x00)) = true /\
+  hello_matches [x61;x62] (decode_greeting simple_parses simple_claim_of 65536 (frame x01)) = false.
+Proof. vm_compute. split; reflexivity. Qed.
